@@ -301,3 +301,31 @@ class SU:
             if miss:
                 msgs.append((v, f"required parameter(s) {miss} of v{v} `{site.name}` not supplied"))
         return msgs
+
+
+def reachable_names(repo, roots, depth=6):
+    """Names of the functions reachable from ``roots`` (list of FuncRef) through calls of same-class methods
+    (self.x / cls.x through the MRO) and module-level functions of the same module."""
+    seen, names, work = set(), set(), [(f, 0) for f in roots]
+    while work:
+        f, d = work.pop()
+        if f.qual in seen or d > depth:
+            continue
+        seen.add(f.qual)
+        names.add(f.name)
+        env = repo.module(f.mod) or {}
+        for n in ast.walk(f.node):
+            if not isinstance(n, ast.Call):
+                continue
+            fn = n.func
+            g = None
+            if isinstance(fn, ast.Attribute) and isinstance(fn.value, ast.Name) and fn.value.id in ("self", "cls") and f.cls is not None:
+                try:
+                    g = f.cls.lookup(fn.attr)
+                except KeyError:
+                    g = None
+            elif isinstance(fn, ast.Name):
+                g = env.get(fn.id)
+            if isinstance(g, FuncRef):
+                work.append((g, d + 1))
+    return names
